@@ -7,6 +7,7 @@ void GMGPolar::prolongation(const int current_level, Vector<double>& result, con
         throw std::runtime_error("Interpolation not initialized.");
 
     interpolation_->applyProlongation(levels_[current_level], levels_[current_level - 1], result, x);
+    VERIF_OP2("P", current_level, result, x);
 }
 
 void GMGPolar::restriction(const int current_level, Vector<double>& result, const Vector<double>& x) const
@@ -16,6 +17,7 @@ void GMGPolar::restriction(const int current_level, Vector<double>& result, cons
         throw std::runtime_error("Interpolation not initialized.");
 
     interpolation_->applyRestriction(levels_[current_level], levels_[current_level + 1], result, x);
+    VERIF_OP2("R", current_level, result, x);
 }
 
 void GMGPolar::injection(const int current_level, Vector<double>& result, const Vector<double>& x) const
@@ -25,6 +27,7 @@ void GMGPolar::injection(const int current_level, Vector<double>& result, const 
         throw std::runtime_error("Interpolation not initialized.");
 
     interpolation_->applyInjection(levels_[current_level], levels_[current_level + 1], result, x);
+    VERIF_OP2("Inj", current_level, result, x);
 }
 
 void GMGPolar::extrapolatedProlongation(const int current_level, Vector<double>& result, const Vector<double>& x) const
@@ -34,6 +37,7 @@ void GMGPolar::extrapolatedProlongation(const int current_level, Vector<double>&
         throw std::runtime_error("Interpolation not initialized.");
 
     interpolation_->applyExtrapolatedProlongation(levels_[current_level], levels_[current_level - 1], result, x);
+    VERIF_OP2("PX", current_level, result, x);
 }
 
 void GMGPolar::extrapolatedRestriction(const int current_level, Vector<double>& result, const Vector<double>& x) const
@@ -43,6 +47,7 @@ void GMGPolar::extrapolatedRestriction(const int current_level, Vector<double>& 
         throw std::runtime_error("Interpolation not initialized.");
 
     interpolation_->applyExtrapolatedRestriction(levels_[current_level], levels_[current_level + 1], result, x);
+    VERIF_OP2("RX", current_level, result, x);
 }
 
 void GMGPolar::FMGInterpolation(const int current_level, Vector<double>& result, const Vector<double>& x) const
@@ -52,4 +57,5 @@ void GMGPolar::FMGInterpolation(const int current_level, Vector<double>& result,
         throw std::runtime_error("Interpolation not initialized.");
 
     interpolation_->applyFMGInterpolation(levels_[current_level], levels_[current_level - 1], result, x);
+    VERIF_OP2("FI", current_level, result, x);
 }
